@@ -744,7 +744,7 @@ func main() {
 		}
 		return c
 	}
-	for run.NOps < a.N {
+	for run.NOps < a.N && !run.Enough() {
 		for _, si := range rng.Perm(len(shapes)) {
 			if run.NOps >= a.N {
 				break
